@@ -14,7 +14,7 @@ use ebml_iterable::tools;
 pub static DEF: PropDef = PropDef {
     id: "C16",
     level: "exploration",
-    rule: "decoder side: arr_to_u64 / arr_to_i64 / arr_to_f64 on all slices of length 0..2 (exhaustive), boundary patterns and random slices of length 3..9 compared with the reference big-endian / sign-extending / IEEE-754 decoders; writer side: single-element documents (UnsignedInt, Integer, Float root elements) written by the real TagWriter for lattice + random 64-bit values, header decoded with the reference decoder, payload width must be the minimal of 1/2/4/8 (8 for floats) and decode back bit-for-bit through the repo's decoders. Distinct-nontrivial = (function, slice length, sign/top-bit class) or (type, payload width, value class).",
+    rule: "decoder side: arr_to_u64 / arr_to_i64 / arr_to_f64 on all slices of length 0..2 (exhaustive), boundary patterns and random slices of length 3..12, every length 13..80 and lengths around powers of two up to 64 KiB compared with the reference big-endian / sign-extending / IEEE-754 decoders; writer side: single-element documents (UnsignedInt, Integer, Float root elements; ids of 1-8 bytes, zero bytes inside the id forced in a third of the cases) written by the real TagWriter for lattice + random 64-bit values, header decoded with the reference decoder, payload width must be the minimal of 1/2/4/8 (8 for floats) and decode back bit-for-bit through the repo's decoders. Distinct-nontrivial = (function, slice length, sign/top-bit class) or (type, payload width, value class).",
     assumptions: &["reference decoders in refcodec.rs are correct", "an empty slice means 0 for both integer decoders, as the property states"],
     cases_quick: 64,
     cases_thorough: 2_048,
@@ -78,15 +78,39 @@ fn check_slice(c: &mut Case, s: &[u8]) {
     c.nontrivial(mix(10, (s.len().min(10) as u64) * 4 + top as u64));
 }
 
-fn mini_spec() -> Spec {
+fn mini_spec(ids: [u64; 3]) -> Spec {
     Spec {
         name: "C16_MINI".into(),
         elems: vec![
-            Elem { id: 0x4DB1, ty: Ty::U, path: vec![], name: "RootU".into() },
-            Elem { id: 0x4DB2, ty: Ty::I, path: vec![], name: "RootI".into() },
-            Elem { id: 0x4DB3, ty: Ty::F, path: vec![], name: "RootF".into() },
+            Elem { id: ids[0], ty: Ty::U, path: vec![], name: "RootU".into() },
+            Elem { id: ids[1], ty: Ty::I, path: vec![], name: "RootI".into() },
+            Elem { id: ids[2], ty: Ty::F, path: vec![], name: "RootF".into() },
         ],
     }
+}
+
+/// three distinct well-formed ids of random byte lengths; zero bytes inside the id are forced now and then
+fn pick_ids(rng: &mut crate::prng::Rng) -> [u64; 3] {
+    let mut out = [0u64; 3];
+    let mut k = 0;
+    while k < 3 {
+        let len = rng.urange(1, 8);
+        let mut id = gen::random_id(rng, len);
+        if len >= 2 && rng.chance(1, 3) {
+            // zero one of the non-leading bytes
+            let byte = rng.urange(0, len - 2);
+            id &= !(0xFFu64 << (8 * byte));
+            if !crate::spec::ref_id_wellformed(id) {
+                continue;
+            }
+        }
+        if out[..k].contains(&id) {
+            continue;
+        }
+        out[k] = id;
+        k += 1;
+    }
+    out
 }
 
 fn min_width_u(v: u64) -> usize {
@@ -169,7 +193,8 @@ fn check_written(c: &mut Case, item: Item, opt: SizeOpt) {
 }
 
 fn run(c: &mut Case) {
-    mini_spec().install();
+    let ids = if c.idx % 2 == 0 { [0x4DB1, 0x4DB2, 0x4DB3] } else { pick_ids(&mut c.rng) };
+    mini_spec(ids).install();
     let idx = c.idx;
     if idx == 0 {
         check_slice(c, &[]);
@@ -183,6 +208,17 @@ fn run(c: &mut Case) {
             for b in 0..=255u8 {
                 check_slice(c, &[a as u8, b]);
             }
+        }
+    }
+    // long slices: every length up to 80 and lengths around powers of two (the property says: every byte slice)
+    if idx % 8 == 1 {
+        let mut lens: Vec<usize> = (13..=80).collect();
+        lens.extend([127usize, 128, 129, 255, 256, 257, 260, 264, 288, 292, 296, 511, 512, 513, 516, 520, 1024, 1028, 1032, 4100, 65536, 65540, 65544]);
+        for len in lens {
+            let mut sl = c.rng.bytes(len);
+            check_slice(c, &sl);
+            sl[0] = *c.rng.pick(&[0u8, 0x7F, 0x80, 0xFF]);
+            check_slice(c, &sl);
         }
     }
     // boundary patterns + random for 3..9 (and 10, 12)
@@ -204,21 +240,21 @@ fn run(c: &mut Case) {
     for k in 0..n {
         let opt = if k % 5 == 4 { SizeOpt::Width(c.rng.urange(1, 8)) } else { SizeOpt::Default };
         let u = gen::gen_u64(&mut c.rng);
-        check_written(c, Item::U(0x4DB1, u), opt);
+        check_written(c, Item::U(ids[0], u), opt);
         let i = gen::gen_i64(&mut c.rng);
-        check_written(c, Item::I(0x4DB2, i), opt);
+        check_written(c, Item::I(ids[1], i), opt);
         let f = gen::gen_f64_bits(&mut c.rng);
-        check_written(c, Item::F(0x4DB3, f), opt);
+        check_written(c, Item::F(ids[2], f), opt);
     }
     if idx == 0 {
         // width boundaries, exactly
         for v in [0u64, 0xFF, 0x100, 0xFFFF, 0x1_0000, 0xFFFF_FFFF, 0x1_0000_0000, u64::MAX] {
-            check_written(c, Item::U(0x4DB1, v), SizeOpt::Default);
+            check_written(c, Item::U(ids[0], v), SizeOpt::Default);
         }
         for v in [0i64, 127, 128, -128, -129, 32767, 32768, -32768, -32769, i32::MAX as i64, i32::MAX as i64 + 1, i32::MIN as i64, i32::MIN as i64 - 1, i64::MAX, i64::MIN] {
-            check_written(c, Item::I(0x4DB2, v), SizeOpt::Default);
+            check_written(c, Item::I(ids[1], v), SizeOpt::Default);
         }
-        let run = run_calls(&[WCall::Write(Item::I(0x4DB2, -129), SizeOpt::Default)], ScriptedWrite::new());
+        let run = run_calls(&[WCall::Write(Item::I(ids[1], -129), SizeOpt::Default)], ScriptedWrite::new());
         c.set_sample(J::obj().set("slice_checks", J::Arr(vec![J::s(format!("arr_to_i64([0xff,0x7f]) = {:?} (reference {:?})", tools::arr_to_i64(&[0xff, 0x7f]), dec_sint(&[0xff, 0x7f]))), J::s(format!("arr_to_f64(len 4: 3fc00000) = {:?}", tools::arr_to_f64(&[0x3f, 0xc0, 0, 0])))])).set("writer_check", J::obj().set("written", J::s("Integer -129")).set("bytes", J::hex(&run.bytes))));
     }
 }
